@@ -119,7 +119,7 @@ CHECKS = {
     "C16": (
         "model_checking",
         "exhaustive enumeration of join type x key specification x result-column selection x all pairs of small tables on five executors; reference join validated against a hand-written native SQL join on every case",
-        "5 join types x 4 key specifications (same-named key, differently named key, two keys, no keys; CROSS only without keys) x result-column selections (all columns, every single column, key + shared column, which drive the SQL pruning of the join) x every pair of multisets of <= 2 (thorough 3) left rows and <= 2 (3) right rows over alphabets with duplicate keys, null keys on either side, empty sides and null/non-null shared non-key values, on Pandas, Polars eager, Polars lazy, SQLite-dialect SQL and PostgreSQL-dialect SQL text on the SQLite engine; each result must equal the reference join, which is itself checked against a hand-written native SQL join on SQLite for every case.",
+        "5 join types x 5 key specifications (same-named key, differently named key, two keys, no keys, a left key that is also a non-key column of the right table; CROSS only without keys) x result-column selections (all columns, every single column, key + shared column, which drive the SQL pruning of the join) x every pair of multisets of <= 2 (thorough 3) left rows and <= 2 (3) right rows over alphabets with duplicate keys, null keys on either side, empty sides and null/non-null shared non-key values, on Pandas, Polars eager, Polars lazy, SQLite-dialect SQL and PostgreSQL-dialect SQL text on the SQLite engine; each result must equal the reference join, which is itself checked against a hand-written native SQL join on SQLite for every case.",
         "Reference join: mc/refmodel.py s_natural_join (null keys never match; shared non-key columns coalesce left then right). pgtext@sqlite is not a PostgreSQL server. Listed findings are matched through the exact as-is model or a narrow (backend, exception, join type, key specification) matcher.",
         "DESIGN.md 3/C16",
     ),
